@@ -259,13 +259,42 @@ func family3(maxU int) []*gramenum.Gram {
 	return out
 }
 
+// family4: three conflict terminals after the same pair of reductions, whose depth-3 lookahead
+// automata share their upper levels (the same second token) and differ in the orientation of the
+// leaves; every orientation of the three groups (2^3) and every order of the groups:
+//
+//	S: A x1 tb y1 | B x1 tb z1 | A x2 tb y2 | B x2 tb z2 | A x3 tb y3 | B x3 tb z3 ;  A: te ;  B: te
+//
+// with {y_i, z_i} = {tc, td}. terminals: 1=a 2=b 3=c 4=d 5=g 6=h 7=e; nonterminals 8=S 9=A 10=B.
+func family4() []*gramenum.Gram {
+	var out []*gramenum.Gram
+	firsts := [][]int{{1, 5, 6}, {5, 1, 6}, {6, 5, 1}}
+	for _, fs := range firsts {
+		for mask := 0; mask < 8; mask++ {
+			g := &gramenum.Gram{T: 7, N: 3}
+			for i, x := range fs {
+				y, z := 3, 4
+				if mask>>i&1 == 1 {
+					y, z = 4, 3
+				}
+				g.Rules = append(g.Rules,
+					gramenum.Rule{LHS: 8, RHS: []int{9, x, 2, y}},
+					gramenum.Rule{LHS: 8, RHS: []int{10, x, 2, z}})
+			}
+			g.Rules = append(g.Rules, gramenum.Rule{LHS: 9, RHS: []int{7}}, gramenum.Rule{LHS: 10, RHS: []int{7}})
+			out = append(out, g)
+		}
+	}
+	return out
+}
+
 func run(c *core.Ctx) {
 	L := 6
 	if !c.Quick() {
 		L = 7
 	}
 	c.Set("L", L)
-	c.Rule("(a) family S: A u x | B u y, A: w, B: w for all words w (|w|<=2), u (|u|<=2 quick / 3 thorough) over {a,b}, with variants: shared suffix nonterminal, nullable symbol inside the suffix, a second conflict pair sharing the lookahead automaton; eoi and no-eoi input; k = 1..8, for k = 2..4 also with minimizeDFA; (a2) two-group family S: A u1 tc | B u1 td | A u2 te | B u2 tf for all unordered pairs of distinct words (|u|<=2 quick / 3 thorough), k=1..4/8; (a3) two-state family S: A u tc | B u td | tp C u td | tp D u tc (A,B: te; C,D: tf) for all words |u|<=2, k=1..4 x minimizeDFA off/on; (b) every reduced rule set of the tiny scope compiled with lalr(2) and lalr(3). For every successful compile every token string <= L vs the CFG oracle. non-trivial = successful compile that used deep lookahead (UsedLADepth>0)")
+	c.Rule("(a) family S: A u x | B u y, A: w, B: w for all words w (|w|<=2), u (|u|<=2 quick / 3 thorough) over {a,b}, with variants: shared suffix nonterminal, nullable symbol inside the suffix, a second conflict pair sharing the lookahead automaton; eoi and no-eoi input; k = 1..8, for k = 2..4 also with minimizeDFA; (a2) two-group family S: A u1 tc | B u1 td | A u2 te | B u2 tf for all unordered pairs of distinct words (|u|<=2 quick / 3 thorough), k=1..4/8; (a3) two-state family S: A u tc | B u td | tp C u td | tp D u tc (A,B: te; C,D: tf) for all words |u|<=2, k=1..4 x minimizeDFA off/on; (a4) three-group family: three conflict terminals whose depth-3 automata share their upper level, all 8 leaf orientations x 3 group orders, k=2..4; (b) every reduced rule set of the tiny scope compiled with lalr(2) and lalr(3). For every successful compile every token string <= L vs the CFG oracle. non-trivial = successful compile that used deep lookahead (UsedLADepth>0)")
 	var cnt counters
 	fam := family(c.Quick())
 	type job struct {
@@ -333,6 +362,24 @@ func run(c *core.Ctx) {
 		j := jobs3[i]
 		checkCase(caseT{Grammar: j.g.String(), G: j.g, Inputs: []gramenum.Input{{NT: 8, Eoi: true}}, K: j.k, Min: j.min}, len(j.g.Rules[2].RHS)+1, &cnt, c)
 	})
+	// three-group family (several multi-level automata in one compile)
+	fam4 := family4()
+	var jobs4 []job
+	for _, g := range fam4 {
+		for k := 2; k <= 4; k++ {
+			jobs4 = append(jobs4, job{g, k, true, false})
+		}
+		jobs4 = append(jobs4, job{g, 3, true, true})
+	}
+	core.ParallelFor(len(jobs4), 16, func(i int) {
+		if c.Expired() {
+			c.Capped("three-group family not completed (budget)")
+			return
+		}
+		j := jobs4[i]
+		checkCase(caseT{Grammar: j.g.String(), G: j.g, Inputs: []gramenum.Input{{NT: 8, Eoi: true}}, K: j.k, Min: j.min}, 4, &cnt, c)
+	})
+	c.Set("three_group_family_grammars", len(fam4))
 	c.Set("two_state_family_grammars", len(fam3))
 	c.Set("two_group_family_grammars", len(fam2))
 	c.Set("family_grammars", len(fam))
